@@ -19,7 +19,20 @@ ARITH_VARS = [('c', 'char'), ('sc', 'signed char'), ('uc', 'unsigned char'), ('s
               ('i', 'int'), ('u', 'unsigned'), ('l', 'long'), ('ul', 'unsigned long'), ('ll', 'long long'), ('bo', '_Bool')]
 FLOAT_VARS = [('fl', 'float'), ('d', 'double'), ('ld', 'long double')]
 INT_TYPES = [t for _, t in ARITH_VARS if t != '_Bool']
-ADDR_OF_SCALAR = False   # see CGen.ptr_of
+def _addr_of_scalar_ok():
+    """`&scalar-local` in a function with a computed goto needs both halves of the mir-gen.c repair (3497c9bc =
+    fixes/C17-4.patch: rename_bb_insn; fixes/C17-5.patch: make_conventional_ssa): until the tree under test has the
+    second one the construct is left out (a -O2 code-generation crash is not what C17 / C18 are about)"""
+    import os
+    try:
+        src = open(os.path.join(os.environ.get('VERIF_REPO', '/repo'), 'mir-gen.c'), errors='replace').read()
+    except OSError:
+        return False
+    i = src.find('static void make_conventional_ssa')
+    return i >= 0 and 'addr_regs' in src[i:i + 2500]
+
+
+ADDR_OF_SCALAR = _addr_of_scalar_ok()   # see CGen.ptr_of
 # pointer variables: name -> (declared type, pointee may be read as an integer)
 PTR_VARS = {
     'pc': ('char *', True), 'pcc': ('const char *', True), 'pv': ('void *', False), 'pcv': ('const void *', False),
@@ -112,9 +125,22 @@ class CGen:
         """arithmetic values made from pointers without depending on addresses"""
         r = self.rng
         k = r.random()
-        if k < 0.3:
+        if k < 0.2:
             (a, _), (b, _) = self.ptr(d - 1), self.ptr(d - 1)
             return '((const volatile void *) %s %s (const volatile void *) %s)' % (a, r.choice(['==', '!=']), b)
+        if k < 0.3:
+            # without casts: a void pointer (alloca, label address, variable) against any object pointer or another void
+            # pointer, a pointer against a null constant, pointers of one base type (also relational)
+            q = r.random()
+            if q < 0.5:
+                a, b = self.void_producer(d - 1), self.ptr_of(r.choice(list(PTR_VARS)), d - 1)
+                if r.random() < 0.5:
+                    a, b = b, a
+                return '(%s %s %s)' % (a, r.choice(['==', '!=']), b)
+            if q < 0.7:
+                return '(%s %s %s)' % (self.ptr(d - 1)[0], r.choice(['==', '!=']), r.choice(['0', '(void *) 0']))
+            grp = r.choice([['pc', 'pcc', 'pcvc', 'pr'], ['pl', 'pcl'], ['pv', 'pcv', 'pvv']])
+            return '(%s %s %s)' % (r.choice(grp), r.choice(['==', '!=', '<', '>=']), r.choice(grp))
         if k < 0.45:
             return '(%s%s)' % (r.choice(['!', '!!']), self.ptr(d - 1)[0])
         if k < 0.55:
@@ -172,9 +198,9 @@ class CGen:
         if kind in ('pcc', 'pcvc'):
             opts += ['dflt@N@', '"text"', 'pc', 'st.p', '&dflt@N@[1]']
         if kind in ('pl', 'pcl'):
-            # `&l` (address of a plain scalar local) only when ADDR_OF_SCALAR: together with a computed goto it trips an
-            # assertion of mir-gen.c's transform_addr at -O2 on /repo d4dd1979 (the address-taken pseudo is split into
-            # several SSA names; corpus/c17_observed_gen_addr_assert.c, fixes/C17-4.patch, reported to the coordinator)
+            # `&l` (address of a plain scalar local): together with a computed goto it tripped an assertion of mir-gen.c's
+            # transform_addr at -O2 (fixes/C17-4.patch = /repo 3497c9bc and fixes/C17-5.patch; witnesses
+            # corpus/c17_observed_gen_addr_assert*.c); ADDR_OF_SCALAR = False leaves it out
             opts += ['larr', '&larr[%s & 7]' % self.ivar(), '&larr[1]'] + (['&l'] if ADDR_OF_SCALAR else [])
         if kind == 'pcl':
             opts += ['ctab@N@', 'pl', '&ctab@N@[2]']
@@ -296,7 +322,8 @@ class CGen:
         if k < 0.86 and self.loop_depth > 0:
             return ['if (%s) %s;' % (self.arith(D), r.choice(['break', 'continue']))]
         if k < 0.92:
-            return ['{'] + ind(['long r2 = %s;' % self.arith(D), 'const char *q = %s;' % self.ptr_of('pcc', D), 'r += r2 + (q != 0);']) + ['}']
+            return ['{'] + ind(['long r2 = %s;' % self.arith(D), 'const char *q = %s;' % self.ptr_of('pcc', D),
+                                'void *w = %s;' % self.void_producer(D), 'r += r2 + (q != 0) + (w != 0);']) + ['}']
         return self.stmt(0)
 
     def block(self, d, n=None, in_loop=False):
